@@ -45,8 +45,12 @@ func (ir *inputReader) getContents(offset *int64, line *int) string {
 	for offset != nil && *offset > bufSize*3/4 {
 		n, err := io.Copy(&buf,
 			io.LimitReader(ir.rs, min(bufSize, *offset-bufSize/4)))
+		if n > 0 && buf.Bytes()[n-1] == '\r' { // do not split "\r\n"
+			n--
+			_, _ = ir.rs.Seek(-1, io.SeekCurrent)
+		}
 		*offset -= n
-		*line += bytes.Count(buf.Bytes(), []byte{'\n'})
+		*line += countNewlines(buf.Bytes()[:n])
 		buf.Reset()
 		if err != nil || n == 0 {
 			break
@@ -60,6 +64,13 @@ func (ir *inputReader) getContents(offset *int64, line *int) string {
 	}
 	_, _ = io.Copy(&buf, r)
 	return buf.String()
+}
+
+// countNewlines counts the line terminators in b as getLineByOffset does:
+// "\n", "\r\n" (once) and "\r". A trailing '\r' is taken for a whole one.
+func countNewlines(b []byte) int {
+	return bytes.Count(b, []byte{'\n'}) + bytes.Count(b, []byte{'\r'}) -
+		bytes.Count(b, []byte{'\r', '\n'})
 }
 
 type inputIter interface {
@@ -112,7 +123,10 @@ func (i *jsonInputIter) Next() (any, bool) {
 	if buf := i.ir.buf; buf != nil && buf.Len() >= 16*1024 {
 		// discard what the decoder has consumed, keep what it has read ahead
 		n := int(i.pos() - i.offset)
-		i.line += bytes.Count(buf.Next(n), []byte{'\n'})
+		if n > 0 && buf.Bytes()[n-1] == '\r' { // do not split "\r\n"
+			n--
+		}
+		i.line += countNewlines(buf.Next(n))
 		i.offset += int64(n)
 	}
 	return v, true
